@@ -113,10 +113,18 @@ IO_RULE = ("byte-stream cases: exhaustive single steps and (small capacities) al
 
 def run(prop, tier, seed):
     if prop == "C14":
+        # "for any capacity": the byte-stream operations on a 4 MiB boxed buffer, unoptimised build, 2 MiB stacks
+        t0 = time.time()
+        bcov, viol = cc.big_run(prop, tier, seed, t0, ops_prefix="Io")
+        if viol:
+            cc.write_min_evidence(prop, tier, seed, time.time() - t0, 1, viol[1])
+            cc.log(f"VIOLATION property={prop} replay={viol[0]}")
+            sys.exit(1)
         runs = [("checked", "checked", ["io", "C14", "--apis", "std"]), ("release", "release", ["io", "C14", "--apis", "std"])]
         return run_reports(prop, tier, seed, runs, "replay-io",
                            ["the byte-queue model (written from the std::io trait documentation and the property statement) is the specification"],
-                           IO_RULE, "all layouts of capacities 0..=8 x every single I/O step with every size class (and all pairs of steps for N<=4, N<=6 thorough)")
+                           IO_RULE, "all layouts of capacities 0..=8 x every single I/O step with every size class (and all pairs of steps for N<=4, N<=6 thorough)",
+                           extra_cov=dict(bcov, _extra_evaluations=bcov.get("large_boxed_buffer_cases", 0)))
     if prop == "C16":
         runs = [("embedded-io", "eio", ["io", "C16", "--apis", "eio"]),
                 ("embedded-io-async", "eio-async", ["io", "C16", "--apis", "eio-async"]),
@@ -461,7 +469,45 @@ def core_only_builds(prop, tier, seed):
         cc.log("\n".join(out.splitlines()[-30:]))
         cc.write_min_evidence(prop, tier, seed, time.time() - t0, 0, f"could not run the core-only build: {label}")
         cc.inconclusive(f"property={prop}: the build-std toolchain step failed for reasons outside the crate ({label})")
+    # the optional embedded-io features must not pull std back in either: every combination of them without std
+    # (with and without alloc), dev and release profile, against the ordinary sysroot
+    combos = ["embedded-io", "embedded-io-async", "embedded-io,embedded-io-async", "alloc,embedded-io,embedded-io-async"]
+    for feats in combos:
+        for prof in ([], ["--release"]):
+            label = f"no-default-features + {feats}" + (", release profile" if prof else "")
+            cmd = ["cargo", "build", "--lib", "--offline", "--no-default-features", "--features", feats, "--target-dir", os.path.join(cc.TARGET, "feature-matrix")] + prof
+            p = subprocess.run(cmd, cwd=cc.REPO, env=cc.ENV, stdout=subprocess.PIPE, stderr=subprocess.STDOUT, text=True)
+            if p.returncode == 0:
+                res[label] = "builds"
+                continue
+            out = p.stdout
+            if "--> src/" in out or "could not compile `circular-buffer`" in out:
+                os.makedirs(cc.REPLAYS, exist_ok=True)
+                path = os.path.join(cc.REPLAYS, "C17-build-features-" + feats.replace(",", "+") + ("-release" if prof else "") + ".log")
+                open(path, "w").write("command: " + " ".join(cmd) + "\n(cwd /repo)\n\n" + out)
+                cc.log("\n".join(out.splitlines()[-30:]))
+                cc.log(f"the crate does not build with {label}")
+                cc.write_min_evidence(prop, tier, seed, time.time() - t0, 1, f"crate does not build: {label}")
+                cc.log(f"VIOLATION property={prop} replay={path}")
+                sys.exit(1)
+            cc.log("\n".join(out.splitlines()[-30:]))
+            cc.write_min_evidence(prop, tier, seed, time.time() - t0, 0, f"could not run the feature-matrix build: {label}")
+            cc.inconclusive(f"property={prop}: a feature-matrix build failed for reasons outside the crate ({label})")
     return {"configuration_builds": res}
+
+
+def _replay_big(prop, path, meta):
+    cc.build("opt0")
+    tmp = os.path.join(cc.OUT, "big-replay-case.json")
+    os.makedirs(cc.OUT, exist_ok=True)
+    json.dump(meta["case"], open(tmp, "w"))
+    p = subprocess.run([cc.binary("opt0"), "big", "--case", tmp], stdout=subprocess.PIPE, stderr=subprocess.STDOUT, text=True, timeout=600)
+    cc.log(p.stdout.strip()[-1500:])
+    done = [l for l in p.stdout.splitlines() if l.startswith("DONE ")]
+    if not done or json.loads(done[-1][5:]).get("failure"):
+        cc.log(f"VIOLATION property={prop} replay={path}")
+        sys.exit(1)
+    sys.exit(0)
 
 
 def replay(prop, path):
@@ -483,6 +529,8 @@ def replay(prop, path):
             cc.log(f"VIOLATION property={prop} replay={path}")
             sys.exit(1)
         sys.exit(0)
+    if prop == "C14" and meta.get("engine") == "big":
+        _replay_big(prop, path, meta)
     if prop in ("C14", "C16"):
         variants = [meta["build"]] if meta.get("build") in cc.VARIANTS else (["checked", "release"] if prop == "C14" else ["eio-both"])
         bad = False
